@@ -307,11 +307,56 @@ def memo_table(ck, items, tier):
         raise tlc.MachineryError(f'only {nacc} memo executions validated ({hits} hits): vacuous')
 
 
+def node_parseinfo_family(ck, tier):
+    """Object-model parses (asmodel=True) with parse information: typed rules reached through pass-through rules from several alternatives
+    that are tried at the same position, so that the node of the typed rule comes from the memo in the later alternatives.  The result -
+    node classes, attributes and the (rule, start, end) of every node - must be the same under every memo configuration."""
+    from ..common import pmap
+    from ..impl import NODEINFO_CONFIGS, run_nodeinfo_case
+    typed = {'attr': "b::B = v:/\\w/ ;", 'ast': "b::B = /\\w/ ;", 'nested': "b::B = l:c [r:c] ;\nc::C = /\\w/ ;",
+             'based': "b::B::Base = v:/\\w/ ;", 'untyped': "b = v:/\\w/ ;"}
+    chains = {0: ('b', ''), 1: ('p', 'p = b ;\n'), 2: ('q', 'q = p ;\np = b ;\n'), 3: ('g', "g = (b) ;\n"), 4: ('o', "o = @:b ;\n")}
+    cases = []
+    for tname, trule in typed.items():
+        for a, b, c in itertools.product(chains, repeat=3):
+            if tier == 'quick' and (a + 2 * b + 3 * c + len(tname)) % 3:
+                continue
+            helpers = ''.join(ln + '\n' for ln in sorted({ln for k in (a, b, c) for ln in chains[k][1].splitlines()}, reverse=True))
+            lines = [f"start = {chains[a][0]} 'x' $ | {chains[b][0]} 'y' $ | {chains[c][0]} 'z' $ ;"]
+            ebnf = '@@grammar :: T\n' + '\n'.join(lines) + '\n' + helpers + trule + '\n'
+            texts = ['q x', 'q y', 'q z', 'q', 'qq y'] + (['ab z', 'a b y'] if tname == 'nested' else [])
+            cases.append({'ebnf': ebnf, 'texts': texts, 'label': f'{tname}/{a}{b}{c}'})
+    res = pmap(run_nodeinfo_case, cases, procs=16, chunk=4, recycle=40)
+    nodes = 0
+    for c, im in zip(cases, res):
+        if im['compile']['k'] != 'ok':
+            ck.violation({'kind': 'parse', 'inputs': {'grammar': c['ebnf']}, 'expected': 'compiles', 'observed': im['compile']}, key='nicompile' + c['label'])
+            continue
+        for text, r in zip(c['texts'], im['res']):
+            ref = r['default']
+            ck.count(evaluations=len(r), traces=len(r), nontrivial=1 if ref['k'] == 'ok' else 0)
+            nodes += 1 if ref['k'] == 'ok' and '__node__' in str(ref.get('v')) else 0
+            for name, o in r.items():
+                if o != ref:
+                    ck.violation({'kind': 'parse', 'inputs': {'grammar': c['ebnf'], 'text': text, 'compile': 'asmodel=True',
+                                                              'settings': dict(dict(NODEINFO_CONFIGS)[name], parseinfo=True)},
+                                  'expected': {'default memo configuration': ref}, 'observed': o,
+                                  'why': f'{name}: the object model (classes, attributes, parse information of every node) differs from the one '
+                                         'built under the default memo configuration',
+                                  'spec': 'C04: all configurations agree (parse information of model nodes included)'},
+                                 key='nodeinfo' + c['label'].split('/')[0] + name)
+    ck.notes['node_parseinfo_cases'] = len(cases)
+    ck.notes['node_parseinfo_results_with_nodes'] = nodes
+    if nodes < 50:
+        raise tlc.MachineryError('node parse-information family: too few results with model nodes (vacuous)')
+
+
 def run(tier):
     ck = Check('C04', tier)
     items = universe(tier, ck.seed)
     machine_part(ck, items, tier)
     memo_table(ck, items, tier)
+    node_parseinfo_family(ck, tier)
     jobs, cases = Jobs(), []
     rcl, cls = tlc_classify([it['g'] for it in items])
     ck.add_tlc(rcl, 'PegUnspec')
